@@ -8,23 +8,30 @@ import (
 	"strconv"
 
 	"verif/core"
+	"verif/gen/goconc"
 	"verif/gen/goprog"
 )
 
 func main() {
-	dir := os.Args[1]
-	n, _ := strconv.Atoi(os.Args[2])
+	kind := os.Args[1]
+	dir := os.Args[2]
+	n, _ := strconv.Atoi(os.Args[3])
 	seed := int64(1)
-	if len(os.Args) > 3 {
-		seed, _ = strconv.ParseInt(os.Args[3], 10, 64)
+	if len(os.Args) > 4 {
+		seed, _ = strconv.ParseInt(os.Args[4], 10, 64)
 	}
 	os.MkdirAll(dir, 0o755)
 	os.WriteFile(filepath.Join(dir, "go.mod"), []byte("module progs\n\ngo 1.21\n"), 0o644)
 	for i := 0; i < n; i++ {
 		r := core.Rand(seed, fmt.Sprintf("prog%d", i))
-		p := goprog.Generate(r, goprog.DefaultConfig())
+		var src string
+		if kind == "conc" {
+			src = goconc.Generate(r).Source
+		} else {
+			src = goprog.Generate(r, goprog.DefaultConfig()).Source
+		}
 		d := filepath.Join(dir, fmt.Sprintf("p%04d", i))
 		os.MkdirAll(d, 0o755)
-		os.WriteFile(filepath.Join(d, "main.go"), []byte(p.Source), 0o644)
+		os.WriteFile(filepath.Join(d, "main.go"), []byte(src), 0o644)
 	}
 }
